@@ -13,7 +13,7 @@ TECHNIQUE = "deterministic simulation: real requestor calling the send_* API aga
 RULE = (
     "a case = one C-ECHO/C-STORE/C-FIND/C-GET/C-MOVE/N-GET/N-SET call by a real requestor; the scripted acceptor answers with a seeded "
     "stream: 0-4 Pending responses (identifier decodable or not), interleaved C-STORE sub-operation requests (C-GET), then a "
-    "final response of some category, or an invalid response (no Status), a response of another message type, silence until "
+    "final response of some category (command and data-set PDVs in separate PDUs or packed into one; message IDs 0, 1, 3, 65535), or an invalid response (no Status), a response of another message type, the first PDU of a response and then nothing, silence until "
     "the DIMSE timeout, or an A-ABORT; checked: the caller gets one (status, identifier) pair per response in order and stops at "
     "the first non-Pending one; in the failure cases exactly one empty result and an A-ABORT on the wire; while the iterator is "
     "suspended a second user thread binds a handler, changes a timeout and creates an Association object within a virtual-time "
